@@ -498,6 +498,9 @@ def run_check(ctx, args):
 
     # ---------------- layer B: correspondence + always-on oracles
     ctx.gen = json.load(open(os.path.join(HERE, "gen.json"), encoding="utf-8"))
+    import warnings
+    warnings.resetwarnings()
+    warnings.simplefilter("ignore")      # sympy re-enables its own deprecation warnings at import
     mod.run(ctx)
 
     # ---------------- layer C: widened search when A or B broke
